@@ -251,6 +251,10 @@ def concrete(repo, seed, n):
         # sum_i PSD_i |sum_k drm_k * u_k * H_k,i|^2 with u = rbduf on rigid-body rows, elduf on elastic rows and 1 on residual-flexibility rows; rms = trapezoid area
         mS, bS, kS = np.array([2.0, 1.5, 3.0, 1.0]), np.array([0.0, 0.7, 1.1, 0.0]), np.array([0.0, 120.0, 400.0, 9000.0])
         fqS = np.sort(rng.rand(9) * 6 + 0.3)
+        if it % 2:
+            # a zoom grid at high absolute frequency: steps of 0.04 Hz refined to 0.002 Hz and back (non-uniform, but uniform to 1e-5 of the frequency itself)
+            fqS = 5000.0 + np.cumsum(np.hstack((0.0, [0.04] * 4, [0.002] * 6, [0.04] * 4)))
+            kS = kS.copy(); kS[2] = mS[2] * (2 * np.pi * 5000.05) ** 2          # an elastic mode inside the zoom
         psdS = rng.rand(2, fqS.size) + 0.1
         tfS = rng.randn(4, 2)
         drmA, drmD = rng.randn(3, 4), rng.randn(3, 4)
